@@ -38,3 +38,35 @@ package middleware
 //@   ensures* bytes: w.ContentLength - old(w.ContentLength) == select(bytesWritten, rw) - old(select(bytesWritten, rw)) && result0 == w.ContentLength - old(w.ContentLength)
 //@   ensures* status: old(w.StatusCode) == old(select(statusSent, rw)) ==> w.StatusCode == select(statusSent, rw)
 //@   modifies w.StatusCode, w.ContentLength, bytesWritten, statusSent
+
+// ---- tracing ----------------------------------------------------------------------
+
+//@ macro sval(c, k) = unboxStr(ctxVal(c, iface(string, k)).val)
+//@ macro shas(c, k) = typeIs(ctxVal(c, iface(string, k)), string)
+
+//@ func Trace$1$1
+//@   property C19 C20
+//@   requires w != nil && r != nil && r.ctx != nil && h != nil && o != nil && sampler != nil
+//@   requires middleware.TraceIDKey != middleware.TraceSpanIDKey && middleware.TraceIDKey != middleware.TraceParentSpanIDKey && middleware.TraceSpanIDKey != middleware.TraceParentSpanIDKey
+//@   let inT = old(hdr(r.Header, "TraceID"))
+//@   let inP = old(hdr(r.Header, "ParentSpanID"))
+//@   let r2 = ptr(*http.Request, servedReq)
+//@   ensures* once: servedCount == old(servedCount) + 1 && servedW == w
+//@   ensures* keep: inT != "" ==> shas(r2.ctx, middleware.TraceIDKey) && sval(r2.ctx, middleware.TraceIDKey) == inT && sampleCalls == old(sampleCalls)
+//@   ensures* parent: inT != "" && inP != "" ==> shas(r2.ctx, middleware.TraceParentSpanIDKey) && sval(r2.ctx, middleware.TraceParentSpanIDKey) == inP
+//@   ensures* span: inT != "" ==> shas(r2.ctx, middleware.TraceSpanIDKey) && sval(r2.ctx, middleware.TraceSpanIDKey) == lastSpanID
+//@   ensures* unsampled: inT == "" && (sampleCalls == old(sampleCalls) || !lastSample) ==> servedReq == r
+//@   ensures* sampled: inT == "" && sampleCalls != old(sampleCalls) && lastSample ==> shas(r2.ctx, middleware.TraceIDKey) && sval(r2.ctx, middleware.TraceIDKey) == lastTraceID || lastTraceID == ""
+//@   modifies* servedCount, servedReq, servedW, lastSample, sampleCalls, lastTraceID, lastSpanID
+//@   frameprop C20
+
+//@ func (*tracedDoer).Do
+//@   property C19
+//@   requires d != nil && d.Doer != nil && r != nil && r.ctx != nil && r.Header != nil
+//@   let tv = ctxVal(r.ctx, iface(string, middleware.TraceIDKey))
+//@   let sv = ctxVal(r.ctx, iface(string, middleware.TraceSpanIDKey))
+//@   requires tv == nil || typeIs(tv, string)
+//@   requires tv != nil ==> typeIs(sv, string)
+//@   ensures* forwarded: tv != nil ==> hdr(r.Header, "TraceID") == unboxStr(tv.val) && hdr(r.Header, "ParentSpanID") == unboxStr(sv.val)
+//@   ensures* untouched: tv == nil ==> hdr(r.Header, "TraceID") == old(hdr(r.Header, "TraceID")) && hdr(r.Header, "ParentSpanID") == old(hdr(r.Header, "ParentSpanID"))
+//@   ensures* sent: doneCount == old(doneCount) + 1 && doneReq == r
